@@ -356,7 +356,8 @@ def mutants(props, args):
             continue
         try:
             t0 = time.time()
-            p = subprocess.run([os.path.join(engine.VERIF, "check"), pid, "--tier", "quick", "--seed", "3"],
+            p = subprocess.run(["env", "WHOOSIM_EVIDENCE_DIR=" + os.path.join(engine.VERIF, "out", "evidence_mutated"),
+                                os.path.join(engine.VERIF, "check"), pid, "--tier", "quick", "--seed", "3"],
                                capture_output=True, text=True, timeout=1500)
             caught = p.returncode == 1 and "VIOLATION property=%s" % pid in p.stdout
             results.append((name, "caught" if caught else "MISSED rc=%d" % p.returncode))
